@@ -49,8 +49,18 @@ const (
 	KVecInt
 	KVecObj
 	KErr
-	KVecIntBig // Vector<int> of 12000 items: 48 KiB unpacked, more than one 32 KiB window of a decompressor
+	KVecIntBig  // Vector<int> of 12000 items: 48 KiB unpacked, more than one 32 KiB window of a decompressor
+	KVecIntSame // Vector<int> of 12000 equal items: packs about 400:1 (an answer like a list of equal flags or zero counters)
 )
+
+// SameVec is the value of a KVecIntSame result.
+func SameVec(tag int32) []int32 {
+	v := make([]int32, 12000)
+	for i := range v {
+		v[i] = tag
+	}
+	return v
+}
 
 // BigVec is the value of a KVecIntBig result.
 func BigVec(tag int32) []int32 {
@@ -132,7 +142,7 @@ type Server struct {
 	Exec     map[int32]int
 	ExecLog  []int32
 	AckedIDs map[int64]bool
-	AckCount map[int64]int // how many times each id was named in a msgs_ack
+	AckCount map[int64]int  // how many times each id was named in a msgs_ack
 	Content  []int64        // server msg_ids sent with odd seq_no
 	AllSent  map[int64]bool // every msg_id the server has used (messages, container items, containers)
 	Queue    []*Out
@@ -361,6 +371,8 @@ func Payload(tag int32, kind Kind) []byte {
 		w.U32(idRpcError).I32(400 + tag%100).Str([]byte(fmt.Sprintf("TEST_ERROR_%d", tag)))
 	case KVecIntBig:
 		w.VecI32(BigVec(tag))
+	case KVecIntSame:
+		w.VecI32(SameVec(tag))
 	}
 	return w.B
 }
